@@ -33,6 +33,9 @@ impl Property for C09 {
     fn tape_len(&self, _t: Tier) -> usize {
         460
     }
+    fn fuzz_runs(&self, _tier: Tier) -> u64 {
+        40_000
+    }
     fn random_cases(&self, tier: Tier) -> u64 {
         tier.pick(25_000, 400_000)
     }
